@@ -110,6 +110,8 @@ def _alias_kw(p):
         out += f", alias_from={p['alias_from']!r}"
     if p.get("ci"):
         out += ", case_insensitive=True"
+    if p.get("no_input"):
+        out += ", no_input=True"
     return out
 
 
@@ -374,7 +376,10 @@ def run_case(case):
                 if n in assign:
                     v = codec.decode(assign[n])
                     r = parse_one(T[p["ann"]], v)
-                    if r[0] != "ok":
+                    if p.get("no_input"):
+                        # documented: the parameter takes no input - it receives its default whatever (and however) the call passes it
+                        expected[n] = codec.decode(p["default"]["v"])
+                    elif r[0] != "ok":
                         invalid.append(n)
                     else:
                         expected[n] = r[1]
@@ -549,6 +554,8 @@ def cases(draw):
                 defaults_started = True
                 good = [v for v in VALS[ann][:2]]
                 p["default"] = {"form": draw(st.sampled_from(["plain", "param", "factory"])), "v": draw(st.sampled_from(good))}
+            if p.get("default", {}).get("form") in ("param", "factory") and draw(st.sampled_from([False, False, False, True])):
+                p["no_input"] = True
             if kind == "pos" and draw(st.sampled_from([False, False, True])):
                 if draw(st.booleans()):
                     p["alias_from"] = [p["name"].upper() + "_alt"]
